@@ -83,7 +83,7 @@ def gen_conflict_window(rng, sessions, sel, sizes, next_id):
     other = lambda m: "b" if m == "inbox" else "inbox"  # noqa
     same = [ss for ss in by_mb.values() if len(ss) >= 2]
     kind = rng.choice(["copy_store", "fetch_store", "move_store", "opposite", "expunge_fetch", "copy_expunge",
-                       "search_store", "search_fetch", "expunge_search", "three_way", "three_way"] +
+                       "search_store", "search_fetch", "expunge_search", "three_way", "three_way", "disjoint", "disjoint"] +
                       (["copy_late"] * 3 if len(sessions) >= 4 else []))
     cmds = []
     if kind == "copy_late" and same:
@@ -144,6 +144,14 @@ def gen_conflict_window(rng, sessions, sel, sizes, next_id):
                                 base(c3, "Copy", set=[[n, n]], mbox=other(m))])
             # the first two have slow clients, so they are still running when the third asks to run
             return [dict(first, pre=pre3, stall=0.2), dict(second, delay=0.0005, stall=0.2), dict(third, delay=0.05)]
+        elif kind == "disjoint" and sizes[m] >= 2:
+            # commands on different messages of one mailbox are let run together: a slow flag-changing FETCH of
+            # message 1 while the flags of the others are changed (both write .mh_sequences)
+            slowcmd = rng.choice([base(a, "Fetch", set=[[1, 1]], peek=False), base(a, "Store", set=[[1, 1]], mode="+", flags=["k1"])])
+            othercmd = rng.choice([base(b, "Store", set=[[2, STAR]], mode=rng.choice("+-"), flags=rng.sample(["Flagged", "Seen", "Deleted"], 1),
+                                        uid=rng.random() < 0.3),
+                                   base(b, "Fetch", set=[[2, STAR]], peek=False)])
+            return [dict(slowcmd, stall=0.2), dict(othercmd, delay=0.05)]
         elif kind == "search_store":
             cmds = [base(a, "Search", set=[], key=rng.choice(["SEEN", "UNSEEN", "FLAGGED", "KEYWORD k1"]), uid=rng.random() < 0.5),
                     base(b, "Store", mode=rng.choice("+-"), flags=rng.sample(["Seen", "Flagged", "k1"], 2))]
